@@ -31,9 +31,10 @@ def T(merchant, cat, sub, amount, m, d, tags=(), desc=None, extra=None):
 
 
 def base_txns():
-    return [T('Grocer', 'Food', 'Grocery', 100.0, 1, 5), T('Grocer', 'Food', 'Grocery', -30.0, 2, 6), T('Employer', 'Pay', 'Salary', -2000.0, 1, 31, ['income']),
+    return [T('Grocer', 'Food', 'Grocery', 100.0, 1, 5), T('Grocer', 'Food', 'Grocery', -30.0, 2, 6, extra={'discount': 0.0}),      # field values that are zero / false / empty are values all the same
+             T('Employer', 'Pay', 'Salary', -2000.0, 1, 31, ['income']),
             T('Employer', 'Pay', 'Salary', 50.0, 2, 1), T('Broker', 'Save', 'IRA', 500.0, 2, 3, ['investment']), T('Bank', 'Move', 'X', -250.0, 3, 3, ['transfer']),
-            T('Bank', 'Move', 'X', 80.0, 3, 4, ['Transfer']), T('Returns', 'Shop', 'Ret', -20.0, 3, 9), T('Cafe', 'Food', 'Coffee', 4.5, 1, 2, ['daily'], extra={'note': 'n<1>'})]
+            T('Bank', 'Move', 'X', 80.0, 3, 4, ['Transfer']), T('Returns', 'Shop', 'Ret', -20.0, 3, 9, extra={'qty': 0, 'flagged': False, 'memo': '', 'rows': [], 'ok': 1}), T('Cafe', 'Food', 'Coffee', 4.5, 1, 2, ['daily'], extra={'note': 'n<1>'})]
 
 
 class DataScript(HTMLParser):
